@@ -267,7 +267,7 @@ Proof.
   split; [ apply chi_axis_dot; assumption | ].
   split.
   - intro t. unfold v'. rewrite <- (rot_fixes_axis l c s t Hl) at 1. apply rot_isometry; assumption.
-  - unfold v', rho2. rewrite chi_displacement by assumption. subst c. ring.
+  - unfold v', rho2. rewrite chi_displacement by assumption. subst c. field.
 Qed.
 
 (* ------------------------------------------------------------------ *)
@@ -299,4 +299,663 @@ Proof.
   subst a3 b3 d3. clear Hd0 Hd1 Hd2.
   unfold tors_A, tors_B, tors_n1, tors_n2. unf.
   repeat split; nsatz.
+Qed.
+
+Lemma dot_self_zero : forall v : Rpt, dot3 RA v v = 0 -> v = (0, 0, 0).
+Proof.
+  intros [[a b] d] H. unf.
+  assert (a = 0) by nra. assert (b = 0) by nra. assert (d = 0) by nra. subst; reflexivity.
+Qed.
+
+Lemma dot_self_nonzero : forall v : Rpt, v <> (0, 0, 0) -> dot3 RA v v <> 0.
+Proof. intros v H H0. apply H. apply dot_self_zero; exact H0. Qed.
+
+(* what utilities.dihedral computes before acos: scal = n1.n2/(|n1||n2|),
+   chiral = (n1 x n2).d32/(|n1||n2|) *)
+Lemma dihedral_sc_formula : forall p1 p2 p3 p4 : Rpt,
+  let n1 := tors_n1 p1 p2 p3 in
+  let n2 := tors_n2 p2 p3 p4 in
+  dot3 RA n1 n1 <> 0 -> dot3 RA n2 n2 <> 0 ->
+  dihedral_sc RA p1 p2 p3 p4 =
+  (dot3 RA n1 n2 / (sqrt (dot3 RA n1 n1) * sqrt (dot3 RA n2 n2)),
+   dot3 RA (cross3 RA n1 n2) (psub RA p3 p2) / (sqrt (dot3 RA n1 n1) * sqrt (dot3 RA n2 n2))).
+Proof.
+  intros p1 p2 p3 p4 n1 n2 H1 H2.
+  unfold dihedral_sc, normalize, norm3. cbn [a_sqrt RArith].
+  change (cross3 RA (psub RA p1 p2) (psub RA p3 p2)) with n1.
+  change (cross3 RA (psub RA p4 p3) (psub RA p3 p2)) with n2.
+  assert (N1 : sqrt (dot3 RA n1 n1) <> 0).
+  { intro Hz. apply sqrt_eq_0 in Hz; [ exact (H1 Hz) | destruct n1 as [[a b] d]; unf; nra ]. }
+  assert (N2 : sqrt (dot3 RA n2 n2) <> 0).
+  { intro Hz. apply sqrt_eq_0 in Hz; [ exact (H2 Hz) | destruct n2 as [[a b] d]; unf; nra ]. }
+  revert N1 N2. generalize (sqrt (dot3 RA n1 n1)) (sqrt (dot3 RA n2 n2)). intros m1 m2 N1 N2.
+  generalize (psub RA p3 p2). clearbody n1 n2. clear H1 H2.
+  destruct n1 as [[a1 b1] d1], n2 as [[a2 b2] d2]. intros [[e0 e1] e2].
+  unf. f_equal; field; split; assumption.
+Qed.
+
+(* C15 torsion addition: rotate p4 (and everything beyond it) about the axis
+   p2 -> p3 by the angle whose cosine/sine are (c, s), exactly as
+   Debump.set_dihedral_angle does through qchichange.  With
+     cos(phi) := scal,  sin(phi) := chiral / |p3 - p2|
+   (scal, chiral as computed by utilities.dihedral; its result is
+   sign(chiral) * acos(scal)), the measured torsion turns by the same angle in
+   the same sense, and (cos(phi), sin(phi)) is on the unit circle. *)
+Theorem torsion_addition : forall (p1 p2 p3 p4 : Rpt) (c s : R),
+  c * c + s * s = 1 ->
+  dot3 RA (tors_n1 p1 p2 p3) (tors_n1 p1 p2 p3) <> 0 ->
+  dot3 RA (tors_n2 p2 p3 p4) (tors_n2 p2 p3 p4) <> 0 ->
+  let p4' := rotate_about RA c s p2 p3 p4 in
+  let L := norm3 RA (psub RA p3 p2) in
+  let cs := dihedral_sc RA p1 p2 p3 p4 in
+  let cs' := dihedral_sc RA p1 p2 p3 p4' in
+  fst cs' = c * fst cs - s * (snd cs / L) /\
+  snd cs' / L = s * fst cs + c * (snd cs / L) /\
+  fst cs * fst cs + (snd cs / L) * (snd cs / L) = 1.
+Proof.
+  intros p1 p2 p3 p4 c s Hcs H1 H2 p4' L cs cs'.
+  assert (Hd : dot3 RA (psub RA p3 p2) (psub RA p3 p2) <> 0).
+  { intro Hz. apply dot_self_zero in Hz. apply H1. unfold tors_n1. rewrite Hz.
+    destruct (psub RA p1 p2) as [[a b] d]. unf. ring. }
+  set (e := normalize RA (psub RA p3 p2)).
+  assert (He : dot3 RA e e = 1) by (apply normalize_unit; exact Hd).
+  assert (Hpar : psub RA p3 p2 = scale L e) by (apply normalize_parallel; exact Hd).
+  assert (HL : L <> 0).
+  { unfold L, norm3. cbn [a_sqrt RArith]. intro Hz. apply sqrt_eq_0 in Hz; [ exact (Hd Hz) | ].
+    destruct (psub RA p3 p2) as [[a b] d]. unf. nra. }
+  destruct (torsion_rotation_algebra p1 p2 p3 p4 e L c s He Hpar Hcs) as (TA & TB & TN).
+  change (padd RA (rot1 RA (chi_mat RA e c s) (psub RA p4 p2)) p2) with p4' in TA, TB, TN.
+  assert (H2' : dot3 RA (tors_n2 p2 p3 p4') (tors_n2 p2 p3 p4') <> 0) by (rewrite TN; exact H2).
+  unfold cs, cs'.
+  rewrite (dihedral_sc_formula p1 p2 p3 p4 H1 H2).
+  rewrite (dihedral_sc_formula p1 p2 p3 p4' H1 H2').
+  cbn [fst snd]. rewrite TN.
+  (* express everything with A, B *)
+  assert (HB : forall q4, dot3 RA (cross3 RA (tors_n1 p1 p2 p3) (tors_n2 p2 p3 q4)) (psub RA p3 p2)
+                          = L * tors_B e p1 p2 p3 q4).
+  { intro q4. unfold tors_B. rewrite Hpar.
+    destruct (cross3 RA (tors_n1 p1 p2 p3) (tors_n2 p2 p3 q4)) as [[u0 u1] u2], e as [[e0 e1] e2].
+    unfold scale. unf. ring. }
+  rewrite (HB p4), (HB p4').
+  fold (tors_A p1 p2 p3 p4) (tors_A p1 p2 p3 p4'). rewrite TA, TB.
+  set (m1 := sqrt (dot3 RA (tors_n1 p1 p2 p3) (tors_n1 p1 p2 p3))).
+  set (m2 := sqrt (dot3 RA (tors_n2 p2 p3 p4) (tors_n2 p2 p3 p4))).
+  assert (M1 : m1 * m1 = dot3 RA (tors_n1 p1 p2 p3) (tors_n1 p1 p2 p3)).
+  { apply sqrt_sqrt. destruct (tors_n1 p1 p2 p3) as [[a b] d]. unf. nra. }
+  assert (M2 : m2 * m2 = dot3 RA (tors_n2 p2 p3 p4) (tors_n2 p2 p3 p4)).
+  { apply sqrt_sqrt. destruct (tors_n2 p2 p3 p4) as [[a b] d]. unf. nra. }
+  assert (N1 : m1 <> 0) by (intro Hz; apply H1; rewrite <- M1, Hz; ring).
+  assert (N2 : m2 <> 0) by (intro Hz; apply H2; rewrite <- M2, Hz; ring).
+  split; [ field; repeat split; assumption | ].
+  split; [ field; repeat split; assumption | ].
+  (* Lagrange: A^2 + B^2 = |n1|^2 |n2|^2, because n1 and n2 are orthogonal to e *)
+  clear TA TB TN HB H2' cs cs' p4'. clearbody L e.
+  assert (Lag : tors_A p1 p2 p3 p4 * tors_A p1 p2 p3 p4 + tors_B e p1 p2 p3 p4 * tors_B e p1 p2 p3 p4
+                = (m1 * m1) * (m2 * m2)).
+  { rewrite M1, M2. clear - He Hpar.
+    destruct p1 as [[a1 b1] d1], p2 as [[a2 b2] d2], p3 as [[a3 b3] d3], p4 as [[a4 b4] d4], e as [[e0 e1] e2].
+    unfold scale in Hpar. unf. apply pt_inv in Hpar. destruct Hpar as (Hd0 & Hd1 & Hd2).
+    assert (E0 : a3 = a2 + L * e0) by lra.
+    assert (E1 : b3 = b2 + L * e1) by lra.
+    assert (E2 : d3 = d2 + L * e2) by lra.
+    subst a3 b3 d3. clear Hd0 Hd1 Hd2.
+    unfold tors_A, tors_B, tors_n1, tors_n2. unf. nsatz. }
+  clearbody m1 m2. clear M1 M2.
+  field_simplify_eq; [ | repeat split; assumption ].
+  transitivity (m1 * m1 * (m2 * m2)); [ rewrite <- Lag; ring | ring ].
+Qed.
+
+(* the same statement in terms of angles *)
+Corollary torsion_addition_angles : forall (p1 p2 p3 p4 : Rpt) (phi theta : R),
+  dot3 RA (tors_n1 p1 p2 p3) (tors_n1 p1 p2 p3) <> 0 ->
+  dot3 RA (tors_n2 p2 p3 p4) (tors_n2 p2 p3 p4) <> 0 ->
+  let L := norm3 RA (psub RA p3 p2) in
+  fst (dihedral_sc RA p1 p2 p3 p4) = cos phi ->
+  snd (dihedral_sc RA p1 p2 p3 p4) / L = sin phi ->
+  let p4' := rotate_about RA (cos theta) (sin theta) p2 p3 p4 in
+  fst (dihedral_sc RA p1 p2 p3 p4') = cos (phi + theta) /\
+  snd (dihedral_sc RA p1 p2 p3 p4') / L = sin (phi + theta).
+Proof.
+  intros p1 p2 p3 p4 phi theta H1 H2 L Hc Hs p4'.
+  assert (Hcs : cos theta * cos theta + sin theta * sin theta = 1).
+  { generalize (sin2_cos2 theta). unfold Rsqr. lra. }
+  destruct (torsion_addition p1 p2 p3 p4 (cos theta) (sin theta) Hcs H1 H2) as (TA & TB & _).
+  fold p4' in TA, TB. fold L in TA, TB. rewrite Hc, Hs in TA, TB.
+  rewrite cos_plus, sin_plus. split; [ rewrite TA; ring | rewrite TB; ring ].
+Qed.
+
+(* ------------------------------------------------------------------ *)
+(* finite sums over lists                                               *)
+
+Fixpoint lsum {X : Type} (f : X -> R) (l : list X) : R :=
+  match l with
+  | [] => 0
+  | x :: t => f x + lsum f t
+  end.
+
+Lemma fold_left_acc : forall (X : Type) (f : X -> R) (l : list X) (a : R),
+  fold_left (fun acc x => acc + f x) l a = a + lsum f l.
+Proof.
+  intros X f l. induction l as [| x t IH]; intro a; cbn [fold_left lsum].
+  - ring.
+  - rewrite IH. ring.
+Qed.
+
+Lemma sum_prod_lsum : forall (f g : Rpt -> R) (l : list (Rpt * Rpt)),
+  sum_prod RA f g l = lsum (fun xy => f (fst xy) * g (snd xy)) l.
+Proof.
+  intros f g l. unfold sum_prod. cbn [a_add a_mul a_zero RArith].
+  rewrite (fold_left_acc _ (fun xy => f (fst xy) * g (snd xy))). ring.
+Qed.
+
+Lemma sum_coord_lsum : forall (f : Rpt -> R) (l : list Rpt), sum_coord RA f l = lsum f l.
+Proof.
+  intros f l. unfold sum_coord. cbn [a_add a_zero RArith]. rewrite fold_left_acc. ring.
+Qed.
+
+Lemma lsum_map : forall (X Y : Type) (h : X -> Y) (f : Y -> R) (l : list X),
+  lsum f (map h l) = lsum (fun x => f (h x)) l.
+Proof. intros X Y h f l. induction l as [| x t IH]; cbn [map lsum]; [ reflexivity | rewrite IH; reflexivity ]. Qed.
+
+Lemma lsum_ext : forall (X : Type) (f g : X -> R) (l : list X),
+  (forall x, f x = g x) -> lsum f l = lsum g l.
+Proof. intros X f g l H. induction l as [| x t IH]; cbn [lsum]; [ reflexivity | rewrite H, IH; reflexivity ]. Qed.
+
+Lemma lsum_lin : forall (X : Type) (f g : X -> R) (a b : R) (l : list X),
+  lsum (fun x => a * f x + b * g x) l = a * lsum f l + b * lsum g l.
+Proof. intros X f g a b l. induction l as [| x t IH]; cbn [lsum]; [ ring | rewrite IH; ring ]. Qed.
+
+Lemma lsum_nonneg : forall (X : Type) (f : X -> R) (l : list X),
+  (forall x, 0 <= f x) -> 0 <= lsum f l.
+Proof.
+  intros X f l H. induction l as [| x t IH]; cbn [lsum]; [ lra | specialize (H x); lra ].
+Qed.
+
+Lemma lsum_nonneg_zero : forall (X : Type) (f : X -> R) (l : list X),
+  (forall x, 0 <= f x) -> lsum f l <= 0 -> forall x, In x l -> f x = 0.
+Proof.
+  intros X f l H. induction l as [| y t IH]; cbn [lsum]; intros Hs x Hin.
+  - destruct Hin.
+  - assert (Ht := lsum_nonneg X f t H). assert (Hy := H y).
+    destruct Hin as [-> | Hin]; [ lra | apply IH; [ lra | exact Hin ] ].
+Qed.
+
+(* ------------------------------------------------------------------ *)
+(* Rayleigh identity: pins the matrix entries of qtrfit AND the
+   transposition convention of rotmol                                   *)
+
+Lemma rayleigh_identity : forall (defs refs : list Rpt) (q : Rquat),
+  rayleigh RA (cmat RA defs refs) q
+  = lsum (fun xy => dot3 RA (snd xy) (rot1 RA (q2mat RA q) (fst xy))) (combine defs refs).
+Proof.
+  intros defs refs q. unfold cmat. generalize (combine defs refs). intro l.
+  cbv zeta. rewrite !sum_prod_lsum.
+  induction l as [| [x y] t IH].
+  - cbn [lsum]. unf. ring.
+  - cbn [lsum]. rewrite <- IH. clear IH.
+    destruct x as [[x0 x1] x2], y as [[y0 y1] y2], q as [[[a b] c] d]. unf. ring.
+Qed.
+
+Lemma combine_map_r : forall (X Y : Type) (h : X -> Y) (l : list X),
+  combine l (map h l) = map (fun x => (x, h x)) l.
+Proof. intros X Y h l. induction l as [| x t IH]; cbn [map combine]; [ reflexivity | rewrite IH; reflexivity ]. Qed.
+
+(* value of the quadratic form when the fitted set is an exact image *)
+Lemma rayleigh_exact_image : forall (xs : list Rpt) (p r : Rquat),
+  rayleigh RA (cmat RA xs (map (rot1 RA (q2mat RA p)) xs)) r
+  = lsum (fun x => dot3 RA (rot1 RA (q2mat RA p) x) (rot1 RA (q2mat RA r) x)) xs.
+Proof.
+  intros xs p r. rewrite rayleigh_identity, combine_map_r, lsum_map. reflexivity.
+Qed.
+
+(* Cauchy-Schwarz side: for an exact image the quadratic form of any unit r is
+   at most sum |x_i|^2, which is attained at r = p; so unit maximisers exist *)
+Lemma rayleigh_exact_gap : forall (xs : list Rpt) (p r : Rquat),
+  qnorm2 RA p = 1 -> qnorm2 RA r = 1 ->
+  let C := cmat RA xs (map (rot1 RA (q2mat RA p)) xs) in
+  lsum (fun x => dist2 (rot1 RA (q2mat RA p) x) (rot1 RA (q2mat RA r) x)) xs
+  = 2 * (rayleigh RA C p - rayleigh RA C r).
+Proof.
+  intros xs p r Hp Hr C. unfold C. rewrite !rayleigh_exact_image.
+  rewrite (lsum_ext _ (fun x => dist2 (rot1 RA (q2mat RA p) x) (rot1 RA (q2mat RA r) x))
+             (fun x => 2 * dot3 RA (rot1 RA (q2mat RA p) x) (rot1 RA (q2mat RA p) x)
+                       + (-2) * dot3 RA (rot1 RA (q2mat RA p) x) (rot1 RA (q2mat RA r) x))).
+  - rewrite lsum_lin. ring.
+  - intro x.
+    assert (H1 := q2mat_preserves_dot p x x Hp). assert (H2 := q2mat_preserves_dot r x x Hr).
+    revert H1 H2. generalize (rot1 RA (q2mat RA p) x) (rot1 RA (q2mat RA r) x).
+    intros [[u0 u1] u2] [[w0 w1] w2]. destruct x as [[x0 x1] x2]. unfold dist2. unf. intros H1 H2. nsatz.
+Qed.
+
+Lemma dist2_nonneg : forall a b : Rpt, 0 <= dist2 a b.
+Proof.
+  intros [[a0 a1] a2] [[b0 b1] b2]. unfold dist2. unf.
+  generalize (Rle_0_sqr (a0 - b0)) (Rle_0_sqr (a1 - b1)) (Rle_0_sqr (a2 - b2)). unfold Rsqr. lra.
+Qed.
+
+Lemma dist2_zero : forall a b : Rpt, dist2 a b = 0 -> a = b.
+Proof.
+  intros [[a0 a1] a2] [[b0 b1] b2] H. unfold dist2 in H. apply dot_self_zero in H.
+  unf. apply pt_inv in H. destruct H as (H0 & H1 & H2). apply pt_eq; lra.
+Qed.
+
+Lemma exact_image_p_maximal : forall (xs : list Rpt) (p r : Rquat),
+  qnorm2 RA p = 1 -> qnorm2 RA r = 1 ->
+  let C := cmat RA xs (map (rot1 RA (q2mat RA p)) xs) in
+  rayleigh RA C r <= rayleigh RA C p.
+Proof.
+  intros xs p r Hp Hr C.
+  assert (G := rayleigh_exact_gap xs p r Hp Hr). fold C in G.
+  assert (N := lsum_nonneg _ (fun x => dist2 (rot1 RA (q2mat RA p) x) (rot1 RA (q2mat RA r) x)) xs
+                 (fun x => dist2_nonneg _ _)).
+  lra.
+Qed.
+
+(* a unit maximiser rotates every fitted point exactly onto its target *)
+Lemma fit_rotation_agrees : forall (xs : list Rpt) (p q : Rquat),
+  qnorm2 RA p = 1 -> qnorm2 RA q = 1 ->
+  let C := cmat RA xs (map (rot1 RA (q2mat RA p)) xs) in
+  rayleigh RA C p <= rayleigh RA C q ->
+  forall x, In x xs -> rot1 RA (q2mat RA q) x = rot1 RA (q2mat RA p) x.
+Proof.
+  intros xs p q Hp Hq C Hmax x Hin.
+  assert (G := rayleigh_exact_gap xs p q Hp Hq). fold C in G.
+  symmetry. apply dist2_zero.
+  apply (lsum_nonneg_zero _ (fun x => dist2 (rot1 RA (q2mat RA p) x) (rot1 RA (q2mat RA q) x)) xs).
+  - intro y. apply dist2_nonneg.
+  - lra.
+  - exact Hin.
+Qed.
+
+(* ------------------------------------------------------------------ *)
+(* two proper rotations that agree on two independent vectors are equal *)
+
+Lemma perp_three_zero : forall (u v d : Rpt),
+  dot3 RA (cross3 RA u v) (cross3 RA u v) <> 0 ->
+  dot3 RA d u = 0 -> dot3 RA d v = 0 -> dot3 RA d (cross3 RA u v) = 0 -> d = (0, 0, 0).
+Proof.
+  intros [[u0 u1] u2] [[v0 v1] v2] [[d0 d1] d2] Hn H1 H2 H3. unf.
+  set (nn := (u1 * v2 - u2 * v1) * (u1 * v2 - u2 * v1) + (u2 * v0 - u0 * v2) * (u2 * v0 - u0 * v2)
+             + (u0 * v1 - u1 * v0) * (u0 * v1 - u1 * v0)) in *.
+  assert (E0 : d0 * nn = 0) by (unfold nn; nsatz).
+  assert (E1 : d1 * nn = 0) by (unfold nn; nsatz).
+  assert (E2 : d2 * nn = 0) by (unfold nn; nsatz).
+  apply Rmult_integral in E0. apply Rmult_integral in E1. apply Rmult_integral in E2.
+  apply pt_eq; tauto.
+Qed.
+
+Lemma mat_agree_all : forall (M M' : Rmat3) (u v : Rpt),
+  dot3 RA (cross3 RA u v) (cross3 RA u v) <> 0 ->
+  rot1 RA M u = rot1 RA M' u -> rot1 RA M v = rot1 RA M' v ->
+  rot1 RA M (cross3 RA u v) = rot1 RA M' (cross3 RA u v) ->
+  forall w, rot1 RA M w = rot1 RA M' w.
+Proof.
+  intros [[[[a00 a01] a02] [[a10 a11] a12]] [[a20 a21] a22]]
+         [[[[b00 b01] b02] [[b10 b11] b12]] [[b20 b21] b22]] u v Hn Hu Hv Hc w.
+  set (n := cross3 RA u v) in *.
+  assert (K0 : (a00 - b00, a10 - b10, a20 - b20) = (0, 0, 0)).
+  { apply (perp_three_zero u v); [ exact Hn | | | fold n ];
+    [ destruct u as [[u0 u1] u2] | destruct v as [[u0 u1] u2] | destruct n as [[u0 u1] u2] ];
+    unf; [ apply pt_inv in Hu; destruct Hu as (E & _ & _)
+         | apply pt_inv in Hv; destruct Hv as (E & _ & _)
+         | apply pt_inv in Hc; destruct Hc as (E & _ & _) ]; lra. }
+  assert (K1 : (a01 - b01, a11 - b11, a21 - b21) = (0, 0, 0)).
+  { apply (perp_three_zero u v); [ exact Hn | | | fold n ];
+    [ destruct u as [[u0 u1] u2] | destruct v as [[u0 u1] u2] | destruct n as [[u0 u1] u2] ];
+    unf; [ apply pt_inv in Hu; destruct Hu as (_ & E & _)
+         | apply pt_inv in Hv; destruct Hv as (_ & E & _)
+         | apply pt_inv in Hc; destruct Hc as (_ & E & _) ]; lra. }
+  assert (K2 : (a02 - b02, a12 - b12, a22 - b22) = (0, 0, 0)).
+  { apply (perp_three_zero u v); [ exact Hn | | | fold n ];
+    [ destruct u as [[u0 u1] u2] | destruct v as [[u0 u1] u2] | destruct n as [[u0 u1] u2] ];
+    unf; [ apply pt_inv in Hu; destruct Hu as (_ & _ & E)
+         | apply pt_inv in Hv; destruct Hv as (_ & _ & E)
+         | apply pt_inv in Hc; destruct Hc as (_ & _ & E) ]; lra. }
+  apply pt_inv in K0. apply pt_inv in K1. apply pt_inv in K2.
+  destruct K0 as (? & ? & ?), K1 as (? & ? & ?), K2 as (? & ? & ?).
+  destruct w as [[w0 w1] w2]. unf.
+  assert (a00 = b00) by lra. assert (a10 = b10) by lra. assert (a20 = b20) by lra.
+  assert (a01 = b01) by lra. assert (a11 = b11) by lra. assert (a21 = b21) by lra.
+  assert (a02 = b02) by lra. assert (a12 = b12) by lra. assert (a22 = b22) by lra.
+  subst. reflexivity.
+Qed.
+
+Lemma rot_agree_all : forall (p q : Rquat) (u v : Rpt),
+  qnorm2 RA p = 1 -> qnorm2 RA q = 1 ->
+  cross3 RA u v <> (0, 0, 0) ->
+  rot1 RA (q2mat RA q) u = rot1 RA (q2mat RA p) u ->
+  rot1 RA (q2mat RA q) v = rot1 RA (q2mat RA p) v ->
+  forall w, rot1 RA (q2mat RA q) w = rot1 RA (q2mat RA p) w.
+Proof.
+  intros p q u v Hp Hq Hn Hu Hv.
+  apply (mat_agree_all (q2mat RA q) (q2mat RA p) u v).
+  - apply dot_self_nonzero; exact Hn.
+  - exact Hu.
+  - exact Hv.
+  - rewrite (q2mat_preserves_cross q u v Hq), (q2mat_preserves_cross p u v Hp), Hu, Hv. reflexivity.
+Qed.
+
+(* ------------------------------------------------------------------ *)
+(* centering commutes with rigid motions                                *)
+
+(* the rigid motion X |-> T + rotmol(M) X *)
+Definition rigid (M : Rmat3) (T : Rpt) (X : Rpt) : Rpt := padd RA T (rot1 RA M X).
+
+Lemma lsum_rigid : forall (M : Rmat3) (T : Rpt) (l : list Rpt),
+  (lsum (px (A := R)) (map (rigid M T) l), lsum (py (A := R)) (map (rigid M T) l), lsum (pz (A := R)) (map (rigid M T) l))
+  = padd RA (scale (INR (length l)) T) (rot1 RA M (lsum (px (A := R)) l, lsum (py (A := R)) l, lsum (pz (A := R)) l)).
+Proof.
+  intros [[[[m00 m01] m02] [[m10 m11] m12]] [[m20 m21] m22]] [[t0 t1] t2] l.
+  induction l as [| [[x0 x1] x2] t IH].
+  - cbn [map lsum length INR]. unfold scale. unf. apply pt_eq; ring.
+  - cbn [map lsum length]. rewrite S_INR. apply pt_inv in IH. destruct IH as (I0 & I1 & I2).
+    unfold scale in *. unfold rigid in *. unf. cbn [fst snd] in *.
+    apply pt_eq; [ rewrite I0 | rewrite I1 | rewrite I2 ]; ring.
+Qed.
+
+Lemma center_fst : forall l : list Rpt,
+  fst (center RA l) = scale (/ INR (length l)) (lsum (px (A := R)) l, lsum (py (A := R)) l, lsum (pz (A := R)) l).
+Proof.
+  intro l. unfold center. cbn [fst]. rewrite !sum_coord_lsum. cbn [a_ofZ a_div RArith].
+  rewrite <- INR_IZR_INZ. unfold scale, Rdiv. unf. apply pt_eq; ring.
+Qed.
+
+Lemma center_snd : forall l : list Rpt,
+  snd (center RA l) = map (fun p => psub RA p (fst (center RA l))) l.
+Proof. intro l. unfold center. cbn [fst snd]. reflexivity. Qed.
+
+Lemma center_rigid_fst : forall (M : Rmat3) (T : Rpt) (l : list Rpt), l <> [] ->
+  fst (center RA (map (rigid M T) l)) = rigid M T (fst (center RA l)).
+Proof.
+  intros M T l Hne. rewrite !center_fst. rewrite lsum_rigid. rewrite map_length.
+  assert (Hn : INR (length l) <> 0).
+  { apply not_0_INR. destruct l; [ congruence | discriminate ]. }
+  generalize (lsum (px (A := R)) l, lsum (py (A := R)) l, lsum (pz (A := R)) l). intros [[s0 s1] s2].
+  revert Hn. generalize (INR (length l)). intros n Hn.
+  destruct M as [[[[m00 m01] m02] [[m10 m11] m12]] [[m20 m21] m22]], T as [[t0 t1] t2].
+  unfold rigid, scale. unf. apply pt_eq; field; exact Hn.
+Qed.
+
+Lemma center_rigid_snd : forall (M : Rmat3) (T : Rpt) (l : list Rpt), l <> [] ->
+  snd (center RA (map (rigid M T) l)) = map (rot1 RA M) (snd (center RA l)).
+Proof.
+  intros M T l Hne. rewrite !center_snd. rewrite center_rigid_fst by exact Hne.
+  rewrite !map_map. apply map_ext. intro X.
+  generalize (fst (center RA l)). intro c. rewrite rot1_sub. unfold rigid.
+  generalize (rot1 RA M X) (rot1 RA M c). intros [[u0 u1] u2] [[w0 w1] w2].
+  destruct T as [[t0 t1] t2]. unf. apply pt_eq; ring.
+Qed.
+
+(* ------------------------------------------------------------------ *)
+(* find_coordinates                                                     *)
+
+Lemma find_coordinates_eq : forall (refs defs : list Rpt) (atom : Rpt),
+  defs <> [] -> length refs = length defs ->
+  find_coordinates RA (length defs) refs defs atom
+  = Some (qtransform1 RA atom (fst (center RA refs)) (fst (center RA defs))
+            (q2mat RA (qtrfit_quat RA NROT (snd (center RA defs)) (snd (center RA refs))))).
+Proof.
+  intros refs defs atom Hne Hlen. unfold find_coordinates.
+  destruct (length defs =? 0)%nat eqn:E.
+  { apply Nat.eqb_eq in E. destruct defs; [ congruence | discriminate ]. }
+  rewrite Hlen, Nat.ltb_irrefl. cbn [orb].
+  rewrite (firstn_all defs). rewrite <- Hlen. rewrite (firstn_all refs).
+  unfold qfit, qtrfit.
+  destruct (center RA refs) as [rc rr]. destruct (center RA defs) as [dc dr]. reflexivity.
+Qed.
+
+(* three template points that are not on one line *)
+Definition noncollinear (l : list Rpt) : Prop :=
+  exists a b c, In a l /\ In b l /\ In c l /\ cross3 RA (psub RA b a) (psub RA c a) <> (0, 0, 0).
+
+(* The eigen-solver's contract for one call qtrfit(defrel, refrel): the
+   returned quaternion is a unit vector maximising q^T C q over unit vectors
+   (i.e. a unit eigenvector of the largest eigenvalue).  Jacobi's convergence
+   is not verified; the harness validates this contract on every call. *)
+Definition eigen_contract (defrel refrel : list Rpt) (q : Rquat) : Prop :=
+  qnorm2 RA q = 1 /\
+  forall r : Rquat, qnorm2 RA r = 1 ->
+    rayleigh RA (cmat RA defrel refrel) r <= rayleigh RA (cmat RA defrel refrel) q.
+
+(* core: ANY unit maximiser gives the rotation of p on all of space *)
+Lemma fit_rotation_unique : forall (defs : list Rpt) (p q : Rquat) (T : Rpt),
+  qnorm2 RA p = 1 -> noncollinear defs ->
+  let refs := map (rigid (q2mat RA p) T) defs in
+  eigen_contract (snd (center RA defs)) (snd (center RA refs)) q ->
+  forall w, rot1 RA (q2mat RA q) w = rot1 RA (q2mat RA p) w.
+Proof.
+  intros defs p q T Hp (a & b & c & Ha & Hb & Hc & Hn) refs (Hq & Hmax).
+  assert (Hne : defs <> []) by (destruct defs; [ destruct Ha | discriminate ]).
+  unfold refs in Hmax. rewrite center_rigid_snd in Hmax by exact Hne.
+  specialize (Hmax p Hp).
+  assert (Hag := fit_rotation_agrees (snd (center RA defs)) p q Hp Hq Hmax).
+  set (cd := fst (center RA defs)) in *.
+  assert (Hin : forall x, In x defs -> In (psub RA x cd) (snd (center RA defs))).
+  { intros x Hx. rewrite center_snd. apply (in_map (fun p0 => psub RA p0 (fst (center RA defs)))). exact Hx. }
+  assert (Ea := Hag _ (Hin a Ha)). assert (Eb := Hag _ (Hin b Hb)). assert (Ec := Hag _ (Hin c Hc)).
+  assert (Dba : psub RA b a = psub RA (psub RA b cd) (psub RA a cd)).
+  { destruct a as [[a0 a1] a2], b as [[b0 b1] b2], cd as [[d0 d1] d2]. unf. apply pt_eq; ring. }
+  assert (Dca : psub RA c a = psub RA (psub RA c cd) (psub RA a cd)).
+  { destruct a as [[a0 a1] a2], c as [[b0 b1] b2], cd as [[d0 d1] d2]. unf. apply pt_eq; ring. }
+  apply (rot_agree_all p q (psub RA b a) (psub RA c a) Hp Hq Hn).
+  - rewrite Dba, (rot1_sub (q2mat RA q) (psub RA b cd) (psub RA a cd)),
+            (rot1_sub (q2mat RA p) (psub RA b cd) (psub RA a cd)), Ea, Eb. reflexivity.
+  - rewrite Dca, (rot1_sub (q2mat RA q) (psub RA c cd) (psub RA a cd)),
+            (rot1_sub (q2mat RA p) (psub RA c cd) (psub RA a cd)), Ea, Ec. reflexivity.
+Qed.
+
+Lemma qtransform_rigid : forall (M : Rmat3) (T atom cd : Rpt),
+  qtransform1 RA atom (rigid M T cd) cd M = rigid M T atom.
+Proof.
+  intros [[[[m00 m01] m02] [[m10 m11] m12]] [[m20 m21] m22]] [[t0 t1] t2] [[a0 a1] a2] [[d0 d1] d2].
+  unfold rigid. unf. apply pt_eq; ring.
+Qed.
+
+Lemma qtransform_ext : forall (M M' : Rmat3) (atom rc fc : Rpt),
+  (forall w, rot1 RA M w = rot1 RA M' w) ->
+  qtransform1 RA atom rc fc M = qtransform1 RA atom rc fc M'.
+Proof. intros M M' atom rc fc H. unfold qtransform1. rewrite H. reflexivity. Qed.
+
+(* C15 main theorem: exact image *)
+Theorem fit_exact_image : forall (defs : list Rpt) (p : Rquat) (T atom : Rpt),
+  qnorm2 RA p = 1 -> noncollinear defs ->
+  let refs := map (rigid (q2mat RA p) T) defs in
+  let defrel := snd (center RA defs) in
+  let refrel := snd (center RA refs) in
+  eigen_contract defrel refrel (qtrfit_quat RA NROT defrel refrel) ->
+  (forall x, In x defrel ->
+     rot1 RA (q2mat RA (qtrfit_quat RA NROT defrel refrel)) x = rot1 RA (q2mat RA p) x) /\
+  find_coordinates RA (length defs) refs defs atom = Some (rigid (q2mat RA p) T atom).
+Proof.
+  intros defs p T atom Hp Hnc refs defrel refrel Hc.
+  assert (Hall := fit_rotation_unique defs p _ T Hp Hnc Hc).
+  split; [ intros x _; apply Hall | ].
+  assert (Hne : defs <> []).
+  { destruct Hnc as (a & _ & _ & Ha & _). destruct defs; [ destruct Ha | discriminate ]. }
+  rewrite find_coordinates_eq; [ | exact Hne | unfold refs; apply map_length ].
+  f_equal. fold defrel refrel.
+  rewrite (qtransform_ext _ (q2mat RA p) _ _ _ Hall).
+  unfold refs. rewrite center_rigid_fst by exact Hne. apply qtransform_rigid.
+Qed.
+
+(* the contract is satisfiable for every exact image: p itself is a unit
+   maximiser (used for non-vacuity) *)
+Lemma eigen_contract_satisfiable : forall (defs : list Rpt) (p : Rquat) (T : Rpt),
+  qnorm2 RA p = 1 -> defs <> [] ->
+  eigen_contract (snd (center RA defs)) (snd (center RA (map (rigid (q2mat RA p) T) defs))) p.
+Proof.
+  intros defs p T Hp Hne. split; [ exact Hp | ].
+  intros r Hr. rewrite center_rigid_snd by exact Hne. apply exact_image_p_maximal; assumption.
+Qed.
+
+(* equivariance: moving the structure by a further rigid motion (g, S) moves
+   the placed atom by the same motion (exact-image case; each call of the
+   eigen-solver meets its contract) *)
+Lemma rigid_compose : forall (p g : Rquat) (T S X : Rpt),
+  rigid (q2mat RA g) S (rigid (q2mat RA p) T X)
+  = rigid (q2mat RA (qmul p g)) (rigid (q2mat RA g) S T) X.
+Proof.
+  intros p g T S X. unfold rigid at 1 2 3. rewrite <- qmul_compose.
+  unfold rigid.
+  assert (L := rot1_linear (q2mat RA g) 1 1 T (rot1 RA (q2mat RA p) X)).
+  assert (E1 : forall v : Rpt, scale 1 v = v).
+  { intros [[v0 v1] v2]. unfold scale. unf. apply pt_eq; ring. }
+  rewrite !E1 in L. rewrite L.
+  generalize (rot1 RA (q2mat RA g) T) (rot1 RA (q2mat RA g) (rot1 RA (q2mat RA p) X)).
+  intros [[u0 u1] u2] [[w0 w1] w2]. destruct S as [[s0 s1] s2]. unf. apply pt_eq; ring.
+Qed.
+
+Theorem fit_equivariant : forall (defs : list Rpt) (p g : Rquat) (T S atom : Rpt),
+  qnorm2 RA p = 1 -> qnorm2 RA g = 1 -> noncollinear defs ->
+  let refs := map (rigid (q2mat RA p) T) defs in
+  let refs' := map (rigid (q2mat RA g) S) refs in
+  let defrel := snd (center RA defs) in
+  eigen_contract defrel (snd (center RA refs)) (qtrfit_quat RA NROT defrel (snd (center RA refs))) ->
+  eigen_contract defrel (snd (center RA refs')) (qtrfit_quat RA NROT defrel (snd (center RA refs'))) ->
+  exists r, find_coordinates RA (length defs) refs defs atom = Some r /\
+            find_coordinates RA (length defs) refs' defs atom = Some (rigid (q2mat RA g) S r).
+Proof.
+  intros defs p g T S atom Hp Hg Hnc refs refs' defrel Hc Hc'.
+  exists (rigid (q2mat RA p) T atom). split.
+  - apply (fit_exact_image defs p T atom Hp Hnc Hc).
+  - assert (E : refs' = map (rigid (q2mat RA (qmul p g)) (rigid (q2mat RA g) S T)) defs).
+    { unfold refs', refs. rewrite map_map. apply map_ext. intro X. apply rigid_compose. }
+    assert (Hpg : qnorm2 RA (qmul p g) = 1) by (rewrite qmul_norm, Hp, Hg; ring).
+    rewrite E in Hc' |- *.
+    rewrite (proj2 (fit_exact_image defs (qmul p g) (rigid (q2mat RA g) S T) atom Hpg Hnc Hc')).
+    f_equal. symmetry. apply rigid_compose.
+Qed.
+
+(* ------------------------------------------------------------------ *)
+(* qchichange as called by the code (axis = un-normalised initcoords)    *)
+
+Definition chi_map (c s : R) (init : Rpt) : Rpt -> Rpt :=
+  rot1 RA (chi_mat RA (normalize RA init) c s).
+
+Lemma qchichange_map : forall (c s : R) (init : Rpt) (coords : list Rpt),
+  qchichange RA c s init coords = map (chi_map c s init) coords.
+Proof. reflexivity. Qed.
+
+Lemma chi_map_axis_fixed : forall (c s : R) (init : Rpt) (t : R),
+  dot3 RA init init <> 0 -> chi_map c s init (scale t init) = scale t init.
+Proof.
+  intros c s init t Hne. unfold chi_map.
+  set (l := normalize RA init).
+  assert (Hl : dot3 RA l l = 1) by (apply normalize_unit; exact Hne).
+  assert (E : scale t init = scale (t * norm3 RA init) l).
+  { rewrite (normalize_parallel init Hne) at 1. fold l. destruct l as [[l0 l1] l2].
+    unfold scale. unf. apply pt_eq; ring. }
+  rewrite E. apply rot_fixes_axis. exact Hl.
+Qed.
+
+Lemma chi_map_isometry : forall (c s : R) (init v w : Rpt),
+  dot3 RA init init <> 0 -> c * c + s * s = 1 ->
+  dist2 (chi_map c s init v) (chi_map c s init w) = dist2 v w.
+Proof.
+  intros c s init v w Hne Hcs. unfold chi_map. apply rot_isometry; [ apply normalize_unit; exact Hne | exact Hcs ].
+Qed.
+
+Lemma chi_map_axis_dist : forall (c s : R) (init v : Rpt) (t : R),
+  dot3 RA init init <> 0 -> c * c + s * s = 1 ->
+  dist2 (chi_map c s init v) (scale t init) = dist2 v (scale t init).
+Proof.
+  intros c s init v t Hne Hcs. rewrite <- (chi_map_axis_fixed c s init t Hne) at 1.
+  apply chi_map_isometry; assumption.
+Qed.
+
+Lemma chi_map_proper : forall (c s : R) (init v w : Rpt),
+  dot3 RA init init <> 0 -> c * c + s * s = 1 ->
+  proper_rotation (chi_mat RA (normalize RA init) c s) /\
+  chi_map c s init (cross3 RA v w) = cross3 RA (chi_map c s init v) (chi_map c s init w).
+Proof.
+  intros c s init v w Hne Hcs.
+  assert (Hl : dot3 RA (normalize RA init) (normalize RA init) = 1) by (apply normalize_unit; exact Hne).
+  split; [ apply chi_rotation; assumption | apply chi_preserves_cross; assumption ].
+Qed.
+
+(* ------------------------------------------------------------------ *)
+(* statements in the form cited by Properties/C15.v                     *)
+
+Lemma q2mat_rotation_full : forall q : Rquat, qnorm2 RA q = 1 ->
+  proper_rotation (q2mat RA q) /\
+  (forall v w, dot3 RA (rot1 RA (q2mat RA q) v) (rot1 RA (q2mat RA q) w) = dot3 RA v w) /\
+  (forall v w, rot1 RA (q2mat RA q) (cross3 RA v w)
+               = cross3 RA (rot1 RA (q2mat RA q) v) (rot1 RA (q2mat RA q) w)).
+Proof.
+  intros q H. split; [ apply q2mat_rotation; exact H | ].
+  split; intros v w; [ apply q2mat_preserves_dot | apply q2mat_preserves_cross ]; exact H.
+Qed.
+
+Lemma chi_axis_fixed_full : forall (c s : R) (init : Rpt) (coords : list Rpt) (t : R),
+  dot3 RA init init <> 0 ->
+  qchichange RA c s init coords = map (chi_map c s init) coords /\
+  chi_map c s init (scale t init) = scale t init /\
+  (forall l : Rpt, dot3 RA l l = 1 -> rot1 RA (chi_mat RA l c s) (scale t l) = scale t l).
+Proof.
+  intros c s init coords t Hne. split; [ reflexivity | ].
+  split; [ apply chi_map_axis_fixed; exact Hne | intros l Hl; apply rot_fixes_axis; exact Hl ].
+Qed.
+
+Lemma chi_isometry_full : forall (c s : R) (init v w : Rpt) (t : R),
+  dot3 RA init init <> 0 -> c * c + s * s = 1 ->
+  dist2 (chi_map c s init v) (chi_map c s init w) = dist2 v w /\
+  dist2 (chi_map c s init v) (scale t init) = dist2 v (scale t init) /\
+  proper_rotation (chi_mat RA (normalize RA init) c s) /\
+  chi_map c s init (cross3 RA v w) = cross3 RA (chi_map c s init v) (chi_map c s init w).
+Proof.
+  intros c s init v w t Hne Hcs.
+  split; [ apply chi_map_isometry; assumption | ].
+  split; [ apply chi_map_axis_dist; assumption | ].
+  apply chi_map_proper; assumption.
+Qed.
+
+Lemma set_dihedral_distances : forall (c s : R) (o a p p' : Rpt) (t : R),
+  dot3 RA (psub RA a o) (psub RA a o) <> 0 -> c * c + s * s = 1 ->
+  dist2 (rotate_about RA c s o a p) o = dist2 p o /\
+  dist2 (rotate_about RA c s o a p) a = dist2 p a /\
+  dist2 (rotate_about RA c s o a p) (padd RA (scale t (psub RA a o)) o)
+    = dist2 p (padd RA (scale t (psub RA a o)) o) /\
+  dist2 (rotate_about RA c s o a p) (rotate_about RA c s o a p') = dist2 p p'.
+Proof.
+  intros c s o a p p' t Hne Hcs.
+  assert (E0 : padd RA (scale 0 (psub RA a o)) o = o).
+  { destruct a as [[a0 a1] a2], o as [[o0 o1] o2]. unfold scale. unf. apply pt_eq; ring. }
+  assert (E1 : padd RA (scale 1 (psub RA a o)) o = a).
+  { destruct a as [[a0 a1] a2], o as [[o0 o1] o2]. unfold scale. unf. apply pt_eq; ring. }
+  assert (H0 := rotate_about_axis_dist c s o a p 0 Hne Hcs). cbv zeta in H0. rewrite E0 in H0.
+  assert (H1 := rotate_about_axis_dist c s o a p 1 Hne Hcs). cbv zeta in H1. rewrite E1 in H1.
+  split; [ exact H0 | ]. split; [ exact H1 | ].
+  split; [ apply (rotate_about_axis_dist c s o a p t Hne Hcs) | apply rotate_about_isometry; assumption ].
+Qed.
+
+(* ------------------------------------------------------------------ *)
+(* non-vacuity: a concrete exact-image problem meeting every hypothesis  *)
+
+Definition ex_defs : list Rpt := [(0, 0, 0); (1, 0, 0); (0, 1, 0); (0, 0, 2)].
+Definition ex_p : Rquat := (1 / 2, 1 / 2, 1 / 2, 1 / 2).
+Definition ex_T : Rpt := (10, -20, 30).
+
+Lemma fit_nonvacuous :
+  qnorm2 RA ex_p = 1 /\ noncollinear ex_defs /\
+  (exists q, eigen_contract (snd (center RA ex_defs))
+               (snd (center RA (map (rigid (q2mat RA ex_p) ex_T) ex_defs))) q) /\
+  rigid (q2mat RA ex_p) ex_T (1, 2, 3) = (13, -19, 32) /\
+  (let c := 3 / 5 in let s := 4 / 5 in let init : Rpt := (0, 0, 2) in
+   c * c + s * s = 1 /\ dot3 RA init init <> 0 /\
+   qchichange RA c s init ((1, 0, 5) :: nil) = ((3 / 5, 4 / 5, 5) :: nil)).
+Proof.
+  assert (Hp : qnorm2 RA ex_p = 1) by (unfold ex_p; unf; field).
+  split; [ exact Hp | ].
+  split.
+  { exists (0, 0, 0), (1, 0, 0), (0, 1, 0). unfold ex_defs. cbn [In].
+    repeat split; auto. unf. intro H. apply pt_inv in H. lra. }
+  split.
+  { exists ex_p. apply eigen_contract_satisfiable; [ exact Hp | unfold ex_defs; discriminate ]. }
+  split.
+  { unfold rigid, ex_p, ex_T. unf. apply pt_eq; field. }
+  cbv zeta. split; [ field | ]. split; [ unf; lra | ].
+  rewrite qchichange_map. cbn [map]. unfold chi_map, normalize, norm3, normalize_with. cbn [a_sqrt RArith].
+  assert (E : sqrt (dot3 RA (0, 0, 2) (0, 0, 2)) = 2).
+  { replace (dot3 RA (0, 0, 2) (0, 0, 2)) with (2 * 2) by (unf; ring). apply sqrt_square. lra. }
+  rewrite E. unf. f_equal. apply pt_eq; field.
 Qed.
